@@ -14,4 +14,4 @@ ref = build_reference(Index())
 with open(REF, 'w') as fp:
     json.dump(ref, fp, separators=(',', ':'), sort_keys=True)
     fp.write('\n')
-print(f'{REF}: {len(ref)} functions, {sum(len(v["locals"]) for v in ref.values())} locals, {sum(len(v["tests"]) for v in ref.values())} tests')
+print(f'{REF}: {len(ref)} functions, {sum(len(v["locals"]) for k, v in ref.items() if k != "__modules__")} locals, {sum(len(v["tests"]) for k, v in ref.items() if k != "__modules__")} tests')
